@@ -557,16 +557,21 @@ struct BFns {
     MapFn left, right, tr_left, tr_right, stride;
     MdFn md_left, md_right;
 };
-template <typename I, std::size_t R>
-constexpr BFns make_bfns()
+template <typename E>
+constexpr BFns make_bfns_e()
 {
-    using E = etl::dextents<I, R>;
+    constexpr std::size_t R = E::rank();
     BFns f{R, &mk_lr<etl::layout_left, E>, &mk_lr<etl::layout_right, E>, nullptr, nullptr, &mk_st<E>, &mk_md<etl::layout_left, E>, &mk_md<etl::layout_right, E>};
     if constexpr (R == 2) {
         f.tr_left  = &mk_tr<etl::layout_left, E>;
         f.tr_right = &mk_tr<etl::layout_right, E>;
     }
     return f;
+}
+template <typename I, std::size_t R>
+constexpr BFns make_bfns()
+{
+    return make_bfns_e<etl::dextents<I, R>>();
 }
 
 std::vector<ull> ref_strides(std::vector<ull> const& e, bool left)
@@ -587,15 +592,20 @@ std::vector<ull> ref_strides(std::vector<ull> const& e, bool left)
     return s;
 }
 
-void run_boundary(Ctx& c, char const* iname_, ull N, ull otherMax, BFns const& f, std::vector<ull> const& divs)
+// only_facts/tn_override: run the left/right/transpose/mdspan part on the given extents of a MIXED static/dynamic
+// extents type (static slot == max of the index type) instead of all factorisations over dextents
+void run_boundary(Ctx& c, char const* iname_, ull N, ull otherMax, BFns const& f, std::vector<ull> const& divs, std::vector<std::vector<ull>> const* only_facts = nullptr,
+    std::string const& tn_override = {})
 {
     std::size_t const R = f.rank;
     bool const small     = N <= 65535; // every index + a real block
     bool const other_too = N <= otherMax;
-    std::string const tn = cat("dextents<", iname_, ",", R, ">");
+    std::string const tn = only_facts != nullptr ? tn_override : cat("dextents<", iname_, ",", R, ">");
     // ---- left / right / transposes: extents = ordered factorisations of N
     std::vector<std::vector<ull>> facts;
-    {
+    if (only_facts != nullptr) {
+        facts = *only_facts;
+    } else {
         std::vector<ull> cur;
         factorisations(N, R, divs, cur, facts);
     }
@@ -668,7 +678,7 @@ void run_boundary(Ctx& c, char const* iname_, ull N, ull otherMax, BFns const& f
         if (c.r.wants_sample()) { c.r.sample(cat("boundary: ", tn, showu(e), " product == ", N, ": left, right, transposes, mdspan on ", ix.n, small ? " (all) indices" : " corner indices")); }
     }
     // ---- layout_stride: required span size == N exactly
-    {
+    if (only_facts == nullptr) {
         std::vector<std::size_t> perm(R);
         for (std::size_t i = 0; i < R; ++i) { perm[i] = i; }
         std::set<std::pair<std::vector<ull>, std::vector<ull>>> seen; // (extents, strides) reached through several (order, padding) pairs count once
@@ -740,6 +750,39 @@ void job_boundary(mc::Reporter& r)
     r.count("index_types");
     c.flush();
 }
+
+// Mixed static/dynamic patterns whose STATIC extent equals max() of the index type (added after seeded breakage
+// c19_extent_static_eq_index_max: extents::extent() compared the static extent with dynamic_extent AFTER narrowing
+// both to index_type, so extents<uint8_t, 255, dyn> took 255 for "dynamic").  Enumerated: every position of the
+// static max slot in rank 1..3 with all other slots dynamic and equal to 1 (the only value that keeps the size
+// representable), left / right / transposed mappings and mdspan on every index, for the four narrow index types.
+template <typename I>
+void job_static_max(mc::Reporter& r)
+{
+    Ctx c(r);
+    constexpr std::size_t M = static_cast<std::size_t>(std::numeric_limits<I>::max());
+    constexpr std::size_t D = etl::dynamic_extent;
+    ull const N        = M;
+    ull const otherMax = static_cast<ull>(std::numeric_limits<other_t<I>>::max());
+    std::vector<ull> const nodivs;
+    auto one = [&](BFns const& f, std::vector<ull> const& e, std::string const& tn) {
+        std::vector<std::vector<ull>> const facts{e};
+        run_boundary(c, iname<I>(), N, otherMax, f, nodivs, &facts, tn);
+    };
+    std::string const in = iname<I>();
+    static constexpr BFns a1 = make_bfns_e<etl::extents<I, M, D>>(), a2 = make_bfns_e<etl::extents<I, D, M>>();
+    static constexpr BFns b1 = make_bfns_e<etl::extents<I, M, D, D>>(), b2 = make_bfns_e<etl::extents<I, D, M, D>>(), b3 = make_bfns_e<etl::extents<I, D, D, M>>();
+    static constexpr BFns b4 = make_bfns_e<etl::extents<I, 1, M, D>>(), b5 = make_bfns_e<etl::extents<I, D, M, 1>>();
+    one(a1, {N, 1}, cat("extents<", in, ",max,dyn>"));
+    one(a2, {1, N}, cat("extents<", in, ",dyn,max>"));
+    one(b1, {N, 1, 1}, cat("extents<", in, ",max,dyn,dyn>"));
+    one(b2, {1, N, 1}, cat("extents<", in, ",dyn,max,dyn>"));
+    one(b3, {1, 1, N}, cat("extents<", in, ",dyn,dyn,max>"));
+    one(b4, {1, N, 1}, cat("extents<", in, ",1,max,dyn>"));
+    one(b5, {1, N, 1}, cat("extents<", in, ",dyn,max,1>"));
+    r.count("index_types");
+    c.flush();
+}
 #endif // MC_ITYPE == 1
 
 } // namespace
@@ -760,6 +803,10 @@ int main(int argc, char** argv)
     m.job("boundary/int", both, [](mc::Reporter& r) { job_boundary<int>(r); });
     m.job("boundary/uint32_t", both, [](mc::Reporter& r) { job_boundary<unsigned>(r); });
     m.job("boundary/int64_t", both, [](mc::Reporter& r) { job_boundary<long>(r); });
+    m.job("static-max/int8_t", both, [](mc::Reporter& r) { job_static_max<signed char>(r); });
+    m.job("static-max/uint8_t", both, [](mc::Reporter& r) { job_static_max<unsigned char>(r); });
+    m.job("static-max/int16_t", both, [](mc::Reporter& r) { job_static_max<short>(r); });
+    m.job("static-max/uint16_t", both, [](mc::Reporter& r) { job_static_max<unsigned short>(r); });
     m.job("boundary/size_t", both, [](mc::Reporter& r) { job_boundary<unsigned long>(r); });
 #endif
     return m.run();
